@@ -19,6 +19,7 @@ struct Node : public MockN2k {
   uint64_t name(int i) { return Devices[i].DeviceInformation.GetName(); }
   void claim(int i) { StartAddressClaim(i); }
   uint16_t maxq() { return MaxCANSendFrames; }
+  unsigned queued() { return MaxCANSendFrames ? (CANSendFrameBufferWrite + MaxCANSendFrames - CANSendFrameBufferRead) % MaxCANSendFrames : 0; }
   uint32_t hbP(int i) { return Devices[i].HeartbeatScheduler.GetPeriod(); }
   uint32_t hbO(int i) { return Devices[i].HeartbeatScheduler.GetOffset(); }
   bool hbDis(int i) { return Devices[i].HeartbeatScheduler.IsDisabled(); }
@@ -212,6 +213,7 @@ static void emit(const std::string &out) {
 
 static std::string framesOut(std::vector<Frame> &fr) { std::string s; for (auto &f : fr) { if (!s.empty()) s += ' '; s += frameStr(f); } return s.empty() ? "-" : s; }
 
+static int devlistProbe(uint64_t origin);
 static void trackOpen(bool wasOpen) { if (!wasOpen && N->isOpen()) { onOpened(); C.count("opened"); } }
 
 static void exec(const std::string &line) {
@@ -312,9 +314,11 @@ static void exec(const std::string &line) {
   }
   if (w[0] == "hbdev") {
     if (!N->isOpen()) { emit("closed"); return; }
-    int d = atoi(w[1].c_str());
+    int d = atoi(w[1].c_str()); unsigned nq0 = N->queued();
     N->sent.clear(); N->SendHeartbeat(d);
-    for (auto &f : N->sent) if (isHb(f) && !backpressure) {
+    if (!active() && N->queued() > nq0) { C.fail("C12:inactive-sends", "mode %d: SendHeartbeat(%d) queued a heartbeat frame", mode, d); }
+    for (auto &f : N->sent) if (isHb(f) && !active()) C.fail("C12:inactive-sends", "mode %d: SendHeartbeat(%d) sent %s", mode, d, frameStr(f).c_str());
+    for (auto &f : N->sent) if (isHb(f) && !backpressure && active()) {
       int dd = devOfSrc(f.id & 0xff); if (dd < 0) continue;
       if (f.buf[2] != 0xff) C.fail("C12:forced-sequence", "requested heartbeat of dev %d carries sequence %u", dd, f.buf[2]);
       checkPayload(f, dd, true);
@@ -490,7 +494,7 @@ int main(int argc, char **argv) {
   // the device list's "never requested" stamp 0 (known finding, replayed every run)
   exec("devlist 1000 2147484648");
   exec("devlist 1000 4294966296");
-  int nSparse = C.thorough ? 160 : 24, nDense = C.thorough ? 60 : 8, nBp = C.thorough ? 30 : 4;
+  int nSparse = C.thorough ? 400 : 60, nDense = C.thorough ? 150 : 20, nBp = C.thorough ? 80 : 10;
   for (int i = 0; i < nSparse; i++) scenario(R, 0);
   for (int i = 0; i < nDense; i++) scenario(R, 1);
   for (int i = 0; i < nBp; i++) scenario(R, 2);
